@@ -9,8 +9,7 @@ open Dashu.Props.C13
 #print axioms hom_neg
 #print axioms hom_dbl
 #print axioms hom_sqr
-#print axioms hom_pow_word_rings
-#print axioms hom_pow_large_partial
+#print axioms hom_pow
 #print axioms inv_spec
 #print axioms div_spec
 #print axioms different_rings
